@@ -43,12 +43,14 @@ class Mode:
         self.user_fns: List[str] = []  # functions the generated outer program may call
         self.user_dags: List[str] = []
 
-    def call(self, name: str, args: List[Any], kw: Dict[str, Any], active: Any = NOFLAG) -> Any:
+    def call(self, name: str, args: List[Any], kw: Dict[str, Any], active: Any = NOFLAG, reserved: Optional[Dict[str, Any]] = None) -> Any:
         plain, node, unpack = self.fn[name]
+        reserved = reserved or {}
+        unpack = reserved.get("twz_unpack_to") or unpack  # call-level unpacking overrides the decorator's
         if self.tawazi:
             if active is not NOFLAG:
                 kw = dict(kw, twz_active=active)
-            return node(*args, **kw)
+            return node(*args, **kw, **reserved)
         v = None if (active is not NOFLAG and not active) else plain(*args, **kw)
         if unpack:
             return tuple(v[i] for i in range(unpack))
@@ -153,8 +155,8 @@ class Gen:
         last = npool - 1
         base_kind = "sub" if (cfg.focus == "C20" and k == 0) else "call"
         kinds = [base_kind] + [x for x in ("call", "op", "sub") if x != base_kind]
-        if cfg.depth < 1:
-            kinds.remove("sub")
+        if cfg.depth < 1 or {"inner", "innerb"} <= self.used_dags:
+            kinds.remove("sub")  # (each inner DAG can be embedded once per outer DAG)
         kind = kinds[H.hole(L + ".kind", len(kinds) - 1)]
         base_flag = ("pool", 1) if (cfg.focus == "C10" and k == len(cfg.stmts) - 1) else None
         if kind == "call":
@@ -164,7 +166,10 @@ class Gen:
             a1 = self.ref(L + ".a1", None, [("pool", 0), ("pool", last), ("const", 3), ("idx", last, 0)])
             args = [a0] + ([a1] if a1 is not None else [])
             kwlast = bool(H.hole(L + ".kw", 1))
-            return ("call", name, args, kwlast, self.flag(L, last, base_flag))
+            # reserved keyword arguments given at the call site: a tag (no effect on values) or an unpacking count
+            rk = H.hole(L + ".reserved", 2 if name != "f2" else 1)
+            reserved = {} if rk == 0 else ({"twz_tag": "tg%d" % k} if rk == 1 else {"twz_unpack_to": 2})
+            return ("call", name, args, kwlast, reserved, self.flag(L, last, base_flag))
         if kind == "op":
             op = OPS[H.hole(L + ".op", len(OPS) - 1)]
             x = self.ref(L + ".x", ("pool", last), [("pool", 0)])
@@ -188,13 +193,13 @@ class Gen:
     def exec_stmt(self, st: Any, pool: List[Any]) -> None:
         M = self.M
         if st[0] == "call":
-            _, name, args, kwlast, active = st
+            _, name, args, kwlast, reserved, active = st
             vals = [self.deref(a, pool) for a in args]
             kw: Dict[str, Any] = {}
             if kwlast:
                 kw["k"] = vals.pop()
             flag = NOFLAG if active is None else self.deref(active, pool)
-            r = M.call(name, vals, kw, flag)
+            r = M.call(name, vals, kw, flag, reserved)
             if isinstance(r, tuple):
                 pool.extend(r)
             else:
@@ -327,7 +332,7 @@ def run_dataflow(cfg: DCfg, c: Ctx) -> Any:
         stmts.append(st)
         # pool growth is static
         if st[0] == "call":
-            npool += M.fn[st[1]][2] or 1
+            npool += st[4].get("twz_unpack_to") or M.fn[st[1]][2] or 1
         elif st[0] == "op":
             npool += 1
         else:
